@@ -110,7 +110,18 @@ func main() {
 			bindErrs = append(bindErrs, fmt.Sprintf("%s#bind: contract target not found in the repository", shortUnit(k)))
 			continue
 		}
-		units = append(units, eng.NewGen(fn, ct))
+		if len(ct.Split) > 0 {
+			for i := range ct.Split {
+				g := eng.NewGen(fn, ct)
+				g.splitCase = i
+				g.unit = fmt.Sprintf("%s#case%d", g.unit, i)
+				units = append(units, g)
+			}
+			continue
+		}
+		g := eng.NewGen(fn, ct)
+		g.splitCase = -1
+		units = append(units, g)
 	}
 	if len(eng.cs.Errs) > 0 {
 		for _, e := range eng.cs.Errs {
